@@ -58,11 +58,11 @@ theorem datify_ignores_nonclass_annotation (S : Schema) (a : Ann) (t : Tree) (h 
 
 /-- `_fromdict` rejects (ValueError) a dict with a key that is not a field of the class -/
 theorem fromdict_rejects_unknown_key (S : Schema) (c : Nat) (k : Class) (ks : List Key) (vs : List Tree)
-    (name : Key) (hk : S[c]? = some k) (hm : name ∈ ks) (hu : k.field? name = none) :
+    (name : Key) (hk : S[c]? = some k) (hh : k.hook = none) (hm : name ∈ ks) (hu : k.field? name = none) :
     fromdict S c (.dict ks vs) = .error .valueError := by
   have hr : construct c k ks (datifyL S k ks vs) (.dict ks vs) = .dict ks vs :=
     construct_reject _ _ _ _ _ ⟨name, hm, hu⟩
-  simp [fromdict, datify, candidates, hk, hr, pick]
+  simp [fromdict, datify, candidates, hk, hr, pick, hh]
 
 /-! ### the guard cannot be dropped: concrete witnesses (replayed on the implementation in `corpus()`) -/
 
@@ -119,8 +119,8 @@ theorem union_second_member_roundtrips :
     fromdict [exCircle, exSquare, exL (.opt [0, 1])] 2 (dictify (.obj 2 [[97]] [.obj 1 [[115]] [.int 3]]))
       = .ok (.obj 2 [[97]] [.obj 1 [[115]] [.int 3]]) :=
   fromdict_asdict_partial _ 2 _ _ (by
-    refine wt_obj_intro [] (exL (.opt [0, 1])) [] rfl (by simp) rfl (by decide) rfl ⟨?_, trivial⟩
-    refine wt_obj_intro [(0, exCircle)] exSquare [] rfl ?_ rfl (by decide) rfl ⟨trivial, trivial⟩
+    refine wt_obj_intro [] (exL (.opt [0, 1])) [] rfl (by simp) rfl (by decide) rfl rfl (by simp) ⟨?_, trivial⟩
+    refine wt_obj_intro [(0, exCircle)] exSquare [] rfl ?_ rfl (by decide) rfl rfl (by intro p hp; simp only [List.mem_singleton] at hp; subst hp; rfl) ⟨trivial, trivial⟩
     intro p hp
     simp only [List.mem_singleton] at hp; subst hp
     exact ⟨[115], by simp [exSquare], by simp [exCircle, Class.field?]⟩)
@@ -158,15 +158,42 @@ theorem union_earlier_member_admitting_claims_the_value :
 theorem fromdict_rejected_by_post_init :
     fromdict [exPercent] 0 (.dict [[110]] [.int 500]) = .error .valueError := by rfl
 
+/-! ### classes with a `_dictify` / `_datify` hook pair -/
+
+/-- `Gauge` = `level : Any = 0` with the `wrap` hook pair;  `Tagged` = `n : Any = 0` with the `rename` pair -/
+def exGauge : Class := { fields := [⟨[108], .any, some (.int 0)⟩], hook := some .wrap }
+def exTagged : Class := { fields := [⟨[110], .any, some (.int 0)⟩], hook := some .rename }
+
+/-- a hooked data object handed to `_asdict` / `_asjson` … ITSELF goes out through its `_dictify` and comes back through its
+`_datify`: it round-trips, value-transforming and key-renaming hooks alike -/
+theorem hooked_object_roundtrips_at_top_level :
+    fromdict [exGauge] 0 (dictifyTop [exGauge] (.obj 0 [[108]] [.list [.int 1, .int 2]])) = .ok (.obj 0 [[108]] [.list [.int 1, .int 2]]) ∧
+    fromdict [exTagged] 0 (dictifyTop [exTagged] (.obj 0 [[110]] [.int 7])) = .ok (.obj 0 [[110]] [.int 7]) ∧
+    dictifyTop [exTagged] (.obj 0 [[110]] [.int 7]) = .dict [[104, 95, 110]] [.int 7] := by
+  refine ⟨rfl, rfl, rfl⟩
+
+/-- serialising a hooked object WITHOUT its `_dictify` (plain `asdict`) while reading it back with its `_datify` is wrong:
+the renaming class refuses its own output, the wrapping class silently returns another value -/
+theorem hooks_must_be_used_in_both_directions :
+    fromdict [exTagged] 0 (dictify (.obj 0 [[110]] [.int 7])) = .error .valueError ∧
+    fromdict [exGauge] 0 (dictify (.obj 0 [[108]] [.list [.int 5]])) = .ok (.obj 0 [[108]] [.int 5]) := by
+  refine ⟨rfl, rfl⟩
+
+/-- C28-K5: that is exactly what happens to a hooked object NESTED in another one — `dataclasses.asdict` recurses into it
+without its `_dictify`, `datify` reads it back with its `_datify` -/
+theorem nested_hooked_object_does_not_roundtrip :
+    fromdict [exTagged, exL (.dom 0)] 1 (dictifyTop [exTagged, exL (.dom 0)] (.obj 1 [[97]] [.obj 0 [[110]] [.int 7]]))
+      = .ok (.obj 1 [[97]] [.dict [[110]] [.int 7]]) := by rfl
+
 /-! ### non-vacuity: the guard is met by a concrete three-level nested instance, and the codec hypothesis by a codec -/
 
 def exS : Schema := [exP, exL (.dom 0), { fields := [⟨[98], .opt [1], none⟩, ⟨[103], .any, some .null⟩] }]
 def exX : Tree := .obj 2 [[98], [103]] [.obj 1 [[97]] [exInner], .list [.int 1, .dict [[122]] [.null]]]
 
 theorem exX_wt : wt exS (.dom 2) exX := by
-  refine wt_obj_intro [] _ [] rfl (by simp) rfl (by decide) rfl ⟨?_, ⟨rfl, rfl⟩, trivial⟩
-  refine wt_obj_intro [] (exL (.dom 0)) [] rfl (by simp) rfl (by decide) rfl ⟨?_, trivial⟩
-  exact wt_obj_intro [] exP [] rfl (by simp) rfl (by decide) rfl ⟨trivial, trivial⟩
+  refine wt_obj_intro [] _ [] rfl (by simp) rfl (by decide) rfl rfl (by simp) ⟨?_, ⟨rfl, rfl⟩, trivial⟩
+  refine wt_obj_intro [] (exL (.dom 0)) [] rfl (by simp) rfl (by decide) rfl rfl (by simp) ⟨?_, trivial⟩
+  exact wt_obj_intro [] exP [] rfl (by simp) rfl (by decide) rfl rfl (by simp) ⟨trivial, trivial⟩
 example : fromdict exS 2 (dictify exX) = .ok exX := fromdict_asdict_partial exS 2 _ _ exX_wt
 example : ∃ C : Codec, C.dec (C.enc (dictify exX)) = some (dictify exX) :=
   ⟨⟨fun _ => [], fun _ => some (dictify exX)⟩, rfl⟩
